@@ -421,35 +421,212 @@ Qed.
 (* machine invariant between operations *)
 Definition MInv (ex : bool) (m : mach) : Prop := LInv ex (mem m) (disk m) (udirty m).
 
+(* weak invariant, valid in every reachable state (even when a status change has not been written) *)
+Definition WInv (m : mach) : Prop := Forall good (mem m) /\ skeleton m /\ DiskOk (disk m).
+
+Lemma Exact_skeleton m : Exact m -> skeleton m.
+Proof. intros H. apply save_skeleton. exact H. Qed.
+Lemma Exact_WInv m : Forall good (mem m) -> Exact m -> WInv m.
+Proof. intros Hg H. split; [exact Hg|]. split; [apply Exact_skeleton; exact H|]. exists (mem m). split; assumption. Qed.
+
+Lemma upd_loop_weak : forall post pre dk sc lg l' dk' sc' lg' o,
+  Forall good (pre ++ post) -> skel (pre ++ post) dk -> DiskOk dk ->
+  upd_loop pre post dk sc lg = (l', dk', sc', lg', o) ->
+  Forall good l' /\ skel l' dk' /\ DiskOk dk'.
+Proof.
+  induction post as [|j post IH]; intros pre dk sc lg l' dk' sc' lg' o Hg HS HD H; simpl in H.
+  - inversion H; subst. rewrite app_nil_r in *. repeat split; assumption.
+  - destruct (polls j) eqn:Ep.
+    + destruct (poll j sc) as [r sc1] eqn:Epoll.
+      pose proof (Forall_mid _ _ _ _ Hg) as Hj. pose proof (polls_sent _ Ep) as Hs.
+      assert (Hrep : forall s e, Forall good (pre ++ restat j s e :: post) /\ skel (pre ++ restat j s e :: post) dk).
+      { intros s e. split; [eapply Forall_replace; [exact Hg|apply restat_good; assumption]|].
+        unfold skel in *. rewrite (skel_replace pre j); [assumption|reflexivity|reflexivity]. }
+      destruct (poll_restat _ _ _ _ Epoll) as [[s [e ->]]|[e ->]].
+      * destruct (Hrep s e) as [Hg' Hk'].
+        destruct (changed j (restat j s e)) eqn:Ec.
+        -- destruct (save (pre ++ restat j s e :: post)) as [d|] eqn:Es.
+           ++ eapply IH; [| | |exact H]; try rewrite app_cons_assoc; try assumption.
+              ** apply save_skeleton; exact Es.
+              ** eexists; split; eassumption.
+           ++ destruct (save_good _ Hg') as [d Hd]. rewrite Hd in Es. discriminate Es.
+        -- eapply IH; [| | |exact H]; try rewrite app_cons_assoc; assumption.
+      * inversion H; subst. destruct (Hrep (jst j) e) as [Hg' Hk']. repeat split; assumption.
+    + eapply IH; [| | |exact H]; try rewrite app_cons_assoc; assumption.
+Qed.
+
+Lemma update_statuses_weak m m' o : WInv m -> update_statuses m = (m', o) -> WInv m' /\ udirty m' = udirty m.
+Proof.
+  unfold update_statuses, WInv, skeleton. intros (Hg & Hk & HD) H.
+  destruct (upd_loop [] (mem m) (disk m) (scr m) (rlog m)) as [[[[l d] sc] lg] o'] eqn:E.
+  inversion H; subst; simpl.
+  destruct (upd_loop_weak (mem m) [] _ _ _ _ _ _ _ _ Hg Hk HD E) as (H1 & H2 & H3). repeat split; assumption.
+Qed.
+
 (* 9afb11d4: on leaving the launch loop, normally or by an exception, the group is written once more iff its image
    differs from the file; either way the file is exact afterwards, memory / script / outcome are untouched *)
-Lemma finish_exact m o m' o' : Forall good (mem m) -> finish cur (m, o) = (m', o') ->
-  mem m' = mem m /\ scr m' = scr m /\ o' = o /\ Exact m'.
+Lemma write_if_changed_exact m o m' o' : Forall good (mem m) -> write_if_changed (m, o) = (m', o') ->
+  mem m' = mem m /\ scr m' = scr m /\ o' = o /\ Exact m' /\ udirty m' = false.
 Proof.
-  intros Hg H. unfold finish in H. cbn [write_on_exit cur] in H.
+  intros Hg H. unfold write_if_changed in H.
   destruct (save_good _ Hg) as [d Hd]. rewrite Hd in H.
   destruct (djobs_eq_dec d (disk m)) as [E|E]; inversion H; subst; unfold Exact; simpl; repeat split; try reflexivity;
     exact Hd.
 Qed.
 
-Lemma launch_exact rerun seq repl m m' o : Forall good (mem m) -> Exact m -> launch cur rerun seq repl m = (m', o) ->
-  Forall good (mem m') /\ Exact m'.
+Lemma finish_exact m o m' o' : Forall good (mem m) -> finish cur (m, o) = (m', o') ->
+  mem m' = mem m /\ scr m' = scr m /\ o' = o /\ Exact m' /\ udirty m' = false.
+Proof. intros Hg H. apply (write_if_changed_exact m o); assumption. Qed.
+
+Lemma launch_core rerun seq repl m0 m' o : WInv m0 ->
+  finish cur (launch_loop cur rerun seq repl [] (mem m0) [] (disk m0) (scr m0) (rlog m0) false) = (m', o) ->
+  Forall good (mem m') /\ Exact m' /\ udirty m' = false.
 Proof.
-  intros Hg HS H. unfold launch in H.
-  assert (Hloop : forall m0, Forall good (mem m0) -> Exact m0 ->
-            finish cur (launch_loop cur rerun seq repl [] (mem m0) [] (disk m0) (scr m0) (rlog m0) false) = (m', o) ->
-            Forall good (mem m') /\ Exact m').
-  { intros m0 Hg0 HS0 Hf.
-    destruct (launch_loop cur rerun seq repl [] (mem m0) [] (disk m0) (scr m0) (rlog m0) false) as [m2 o2] eqn:El.
-    assert (HI : LInv false (mem m2) (disk m2) (udirty m2)).
-    { eapply launch_loop_inv; [|exact El]. simpl. rewrite app_nil_r. apply LInv_written; assumption. }
-    destruct HI as (Hg2 & _). destruct (finish_exact _ _ _ _ Hg2 Hf) as (Hm & _ & _ & He).
-    split; [rewrite Hm; exact Hg2|exact He]. }
-  destruct rerun.
+  intros (Hg0 & Hk0 & HD0) Hf.
+  destruct (launch_loop cur rerun seq repl [] (mem m0) [] (disk m0) (scr m0) (rlog m0) false) as [m2 o2] eqn:El.
+  assert (HI : LInv false (mem m2) (disk m2) (udirty m2)).
+  { eapply launch_loop_inv; [|exact El]. simpl. rewrite app_nil_r.
+    split; [exact Hg0|]. split; [exact Hk0|]. split; [intros Hn; discriminate Hn|exact HD0]. }
+  destruct HI as (Hg2 & _). destruct (finish_exact _ _ _ _ Hg2 Hf) as (Hm & _ & _ & He & Hd).
+  split; [rewrite Hm; exact Hg2|]. split; assumption.
+Qed.
+
+Lemma launch_weak rerun seq repl m m' o : WInv m -> launch cur rerun seq repl m = (m', o) -> WInv m'.
+Proof.
+  intros HW H. unfold launch in H. destruct rerun.
+  - destruct (update_statuses m) as [m1 o1] eqn:Eu. destruct (update_statuses_weak _ _ _ HW Eu) as (HW1 & _).
+    destruct o1; [|inversion H; subst; exact HW1].
+    destruct (launch_core _ _ _ _ _ _ HW1 H) as (A & B & _). apply Exact_WInv; assumption.
+  - destruct (launch_core _ _ _ _ _ _ HW H) as (A & B & _). apply Exact_WInv; assumption.
+Qed.
+
+Lemma launch_exact rerun seq repl m m' o : Forall good (mem m) -> Exact m -> launch cur rerun seq repl m = (m', o) ->
+  Forall good (mem m') /\ Exact m' /\ udirty m' = udirty m \/ Forall good (mem m') /\ Exact m' /\ udirty m' = false.
+Proof.
+  intros Hg HS H. unfold launch in H. destruct rerun.
   - destruct (update_statuses m) as [m1 o1] eqn:Eu.
-    destruct (update_statuses_inv _ _ _ Hg HS Eu) as (Hg1 & HS1 & _).
-    destruct o1; [apply (Hloop m1); assumption|]. inversion H; subst. split; assumption.
-  - apply (Hloop m); assumption.
+    destruct (update_statuses_inv _ _ _ Hg HS Eu) as (Hg1 & HS1 & Hd1).
+    destruct o1; [right; eapply launch_core; [apply Exact_WInv; eassumption|exact H]|].
+    inversion H; subst. left. repeat split; assumption.
+  - right. eapply launch_core; [apply Exact_WInv; eassumption|exact H].
+Qed.
+
+(* ------------------------------------------------------------------ get_results and track_progress *)
+(* jobs whose status / error counter may have been refreshed (only sent jobs are) *)
+Definition refreshed (j j' : job) : Prop := exists s e, j' = restat j s e /\ (sent j = true \/ j' = j).
+
+Lemma refreshed_refl j : refreshed j j.
+Proof. exists (jst j), (jerrs j). split; [symmetry; apply restat_self|right; reflexivity]. Qed.
+
+Lemma refreshed_good j j' : refreshed j j' -> good j -> good j'.
+Proof. intros (s & e & -> & [Hs| ->]) Hg; [apply restat_good; assumption|exact Hg]. Qed.
+
+Lemma results_loop_spec : forall post pre sc lg dirty l' sc' lg' dy o,
+  results_loop pre post sc lg dirty = (l', sc', lg', dy, o) ->
+  exists post', l' = pre ++ post' /\ Forall2 refreshed post post' /\
+                (dy = false -> dirty = false /\ map to_disk post' = map to_disk post).
+Proof.
+  induction post as [|j post IH]; intros pre sc lg dirty l' sc' lg' dy o H; simpl in H.
+  - inversion H; subst. exists []. rewrite app_nil_r. split; [reflexivity|]. split; [constructor|]. intros E; split; [exact E|reflexivity].
+  - assert (Hstop : forall j1 d1, refreshed j j1 -> (d1 = false -> dirty = false /\ to_disk j1 = to_disk j) ->
+              exists post', pre ++ j1 :: post = pre ++ post' /\ Forall2 refreshed (j :: post) post' /\
+                            (d1 = false -> dirty = false /\ map to_disk post' = map to_disk (j :: post))).
+    { intros j1 d1 Hr Hd. exists (j1 :: post). split; [reflexivity|]. split.
+      - constructor; [exact Hr|]. clear. induction post; constructor; [apply refreshed_refl|assumption].
+      - intros E. destruct (Hd E) as [E1 E2]. split; [exact E1|]. simpl. rewrite E2. reflexivity. }
+    assert (Hcont : forall j1 d1 sc1 lg1, refreshed j j1 -> (d1 = false -> dirty = false /\ to_disk j1 = to_disk j) ->
+              results_loop (pre ++ [j1]) post sc1 lg1 d1 = (l', sc', lg', dy, o) ->
+              exists post', l' = pre ++ post' /\ Forall2 refreshed (j :: post) post' /\
+                            (dy = false -> dirty = false /\ map to_disk post' = map to_disk (j :: post))).
+    { intros j1 d1 sc1 lg1 Hr Hd Hc. destruct (IH _ _ _ _ _ _ _ _ _ Hc) as (p' & -> & HF & Hdy).
+      exists (j1 :: p'). split; [rewrite app_cons_assoc; reflexivity|]. split; [constructor; assumption|].
+      intros E. destruct (Hdy E) as [E1 E2]. destruct (Hd E1) as [E3 E4]. split; [exact E3|]. simpl. rewrite E4, E2. reflexivity. }
+    assert (Hsame : forall d : bool, d = false -> d = false /\ to_disk j = to_disk j) by (intros; split; [assumption|reflexivity]).
+    destruct (maybe_completed (jst j)); [|eapply Hcont; [apply refreshed_refl|apply Hsame|exact H]].
+    assert (Htail : forall j1 sc1 lg1, refreshed j j1 ->
+              ((dirty || changed j j1) = false -> dirty = false /\ to_disk j1 = to_disk j) ->
+              (if maybe_completed (jst j1)
+               then match jid j1 with
+                    | None => (pre ++ j1 :: post, sc1, lg1 ++ [RResult None], dirty || changed j j1, Raised E_HTTP)
+                    | Some i => let (a, sc2) := pop sc1 in
+                                match a with
+                                | AOk _ _ => results_loop (pre ++ [j1]) post sc2 (lg1 ++ [RResult (Some i)]) (dirty || changed j j1)
+                                | _ => (pre ++ j1 :: post, sc2, lg1 ++ [RResult (Some i)], dirty || changed j j1, Raised E_HTTP)
+                                end
+                    end
+               else results_loop (pre ++ [j1]) post sc1 lg1 (dirty || changed j j1)) = (l', sc', lg', dy, o) ->
+              exists post', l' = pre ++ post' /\ Forall2 refreshed (j :: post) post' /\
+                            (dy = false -> dirty = false /\ map to_disk post' = map to_disk (j :: post))).
+    { intros j1 sc1 lg1 Hr Hd Ht. destruct (maybe_completed (jst j1)); [|eapply Hcont; eassumption].
+      destruct (jid j1); [|inversion Ht; subst; apply Hstop; assumption].
+      destruct (pop sc1) as [a sc2]. destruct a; [eapply Hcont; eassumption| |]; inversion Ht; subst; apply Hstop; assumption. }
+    destruct (polls j) eqn:Ep.
+    + destruct (poll j sc) as [r sc1] eqn:Epoll. pose proof (polls_sent _ Ep) as Hs.
+      destruct (poll_restat _ _ _ _ Epoll) as [[s [e ->]]|[e ->]].
+      * eapply Htail; [exists s, e; split; [reflexivity|left; exact Hs]| |exact H].
+        intros E. apply orb_false_iff in E. destruct E as [E1 E2]. split; [exact E1|apply to_disk_unchanged; exact E2].
+      * inversion H; subst. apply Hstop; [exists (jst j), e; split; [reflexivity|left; exact Hs]|].
+        intros E; split; [exact E|apply restat_to_disk].
+    + eapply Htail; [apply refreshed_refl| |exact H].
+      intros E. apply orb_false_iff in E. destruct E as [E1 _]. split; [exact E1|reflexivity].
+Qed.
+
+Lemma Forall2_refreshed_facts l l' : Forall2 refreshed l l' ->
+  (Forall good l -> Forall good l') /\ map (fun j => (jid j, jmeta j)) l' = map (fun j => (jid j, jmeta j)) l.
+Proof.
+  induction 1 as [|j j' r r' Hr _ [IH1 IH2]]; [split; [auto|reflexivity]|]. split.
+  - intros Hg. inversion Hg; subst. constructor; [eapply refreshed_good; eassumption|auto].
+  - simpl. rewrite IH2. destruct Hr as (s & e & -> & _). reflexivity.
+Qed.
+
+(* 65ec16e2: get_results leaves the file exact whenever its refresh pass returned; memory may have been refreshed *)
+Lemma get_results_inv m m' o : WInv m -> get_results cur m = (m', o) ->
+  WInv m' /\ (Exact m -> Exact m').
+Proof.
+  intros HW H. unfold get_results in H. destruct (update_statuses m) as [m1 o1] eqn:Eu.
+  destruct (update_statuses_weak _ _ _ HW Eu) as (HW1 & _).
+  assert (HE1 : Exact m -> Exact m1).
+  { intros HS. destruct HW as (Hg & _). destruct (update_statuses_inv _ _ _ Hg HS Eu) as (_ & B & _). exact B. }
+  destruct o1.
+  2:{ inversion H; subst. split; [exact HW1|exact HE1]. }
+  destruct (results_loop [] (mem m1) (scr m1) (rlog m1) false) as [[[[l sc] lg] dy] o2] eqn:El.
+  cbn [results_write cur] in H. destruct (results_loop_spec _ _ _ _ _ _ _ _ _ _ El) as (p' & -> & HF & _).
+  destruct (Forall2_refreshed_facts _ _ HF) as [Hgood _]. destruct HW1 as (Hg1 & _).
+  destruct (write_if_changed_exact (mkm p' (disk m1) sc lg dy) o2 m' o (Hgood Hg1) H) as (Em & _ & _ & HX & _).
+  assert (Hg' : Forall good (mem m')) by (rewrite Em; exact (Hgood Hg1)).
+  split; [apply Exact_WInv; assumption|intros _; exact HX].
+Qed.
+
+Lemma track_loop_inv : forall fuel m m' o, track_loop fuel m = (m', o) ->
+  (WInv m -> WInv m') /\ (Forall good (mem m) -> Exact m -> Exact m') /\ udirty m' = udirty m.
+Proof.
+  induction fuel as [|f IH]; intros m m' o H; simpl in H.
+  - inversion H; subst. split; [auto|split; [auto|reflexivity]].
+  - destruct (update_statuses m) as [m1 o1] eqn:Eu.
+    assert (HA : (WInv m -> WInv m1) /\ (Forall good (mem m) -> Exact m -> Forall good (mem m1) /\ Exact m1) /\ udirty m1 = udirty m).
+    { split; [intros HW; apply (update_statuses_weak _ _ _ HW Eu)|]. split.
+      - intros Hg HS. destruct (update_statuses_inv _ _ _ Hg HS Eu) as (A & B & _). split; assumption.
+      - unfold update_statuses in Eu. destruct (upd_loop _ _ _ _ _) as [[[[l d] sc] lg] o']. inversion Eu; reflexivity. }
+    destruct HA as (A1 & A2 & A3).
+    destruct o1; [destruct (counts_running (mem m1))|];
+      try (inversion H; subst; split; [exact A1|split; [intros Hg HS; apply (A2 Hg HS)|exact A3]]).
+    destruct (IH _ _ _ H) as (B1 & B2 & B3). split; [auto|split; [|congruence]].
+    intros Hg HS. destruct (A2 Hg HS) as [C1 C2]. auto.
+Qed.
+
+Lemma track_inv m m' o : track m = (m', o) ->
+  (WInv m -> WInv m') /\ (Forall good (mem m) -> Exact m -> Exact m') /\ udirty m' = udirty m.
+Proof.
+  unfold track. destruct (never_sent_waiting (mem m)); [intros H; inversion H; subst; split; [auto|split; [auto|reflexivity]]|].
+  destruct (update_statuses m) as [m0 o0] eqn:Eu. intros H.
+  assert (HA : (WInv m -> WInv m0) /\ (Forall good (mem m) -> Exact m -> Forall good (mem m0) /\ Exact m0) /\ udirty m0 = udirty m).
+  { split; [intros HW; apply (update_statuses_weak _ _ _ HW Eu)|]. split.
+    - intros Hg HS. destruct (update_statuses_inv _ _ _ Hg HS Eu) as (A & B & _). split; assumption.
+    - unfold update_statuses in Eu. destruct (upd_loop _ _ _ _ _) as [[[[l d] sc] lg] o']. inversion Eu; reflexivity. }
+  destruct HA as (A1 & A2 & A3).
+  destruct o0; [|inversion H; subst; split; [exact A1|split; [intros Hg HS; apply (A2 Hg HS)|exact A3]]].
+  destruct (track_loop_inv _ _ _ _ H) as (B1 & B2 & B3). split; [auto|split; [|congruence]].
+  intros Hg HS. destruct (A2 Hg HS) as [C1 C2]. auto.
 Qed.
 
 Lemma handle_params_keeps j kms kbad j' : handle_params j kms kbad = Some j' -> jid j' = jid j /\ jst j' = jst j.
@@ -513,53 +690,101 @@ Proof.
   apply (no_duplicate_id m j i); [exact Ei|]. rewrite <- Ei. apply in_map. eapply nth_error_In; exact Hn.
 Qed.
 
-Lemma Exact_skeleton m : Exact m -> skeleton m.
-Proof. intros H. apply save_skeleton. exact H. Qed.
-
-(* the main step lemma, for EVERY operation, EVERY job and EVERY server script: from an exact file, the operation —
-   whether it returns or raises — leaves all jobs well-formed and the file the exact image of memory *)
-Theorem step_exact m o m' out :
-  Forall good (mem m) -> Exact m -> step cur m o = (m', out) -> Forall good (mem m') /\ Exact m'.
+(* add in any reachable state: unchanged, or a good job appended and the whole group written *)
+Lemma add_job_any j sc lg kms kbad m m' out : Forall good (mem m) -> jwf j ->
+  add_job cur (mkm (mem m) (disk m) sc lg false) j kms kbad = (m', out) ->
+  (mem m' = mem m /\ disk m' = disk m /\ udirty m' = false) \/ (Forall good (mem m') /\ Exact m' /\ udirty m' = false).
 Proof.
-  intros Hg HS H. unfold step in H. destruct o as [|s pre kms kbad|seq|seq repl| |k].
-  - inversion H; subst. destruct (roundtrip_list _ _ Hg HS) as [H1 H2]. split; [exact H2|exact H1].
+  intros Hg Hw Ha. destruct (add_job_cases _ _ _ _ _ _ Hw Ha) as [[-> _]|(j' & Hj' & _ & Hm & Hcase)].
+  - left. repeat split.
+  - assert (Hg' : Forall good (mem m')).
+    { rewrite Hm. simpl. rewrite Forall_app. split; [exact Hg|constructor; [exact Hj'|constructor]]. }
+    destruct Hcase as [(Hs & Hd & _)|(Hs & _ & _)]; [right; repeat split; assumption|].
+    destruct (save_good _ Hg') as [d Hd]. rewrite Hd in Hs. discriminate Hs.
+Qed.
+
+(* every operation, from every reachable state: jobs stay well-formed, identifiers and metadata on disk are those of
+   memory, and the file is the image of well-formed jobs (so that a re-open restores an exact state) *)
+Theorem step_weak m o m' out : WInv m -> step cur m o = (m', out) -> WInv m'.
+Proof.
+  intros HW H. pose proof HW as (Hg & Hk & HD). unfold step in H.
+  set (m1 := mkm (mem m) (disk m) (scr m) (rlog m) false) in *.
+  assert (HW1 : WInv m1) by exact HW.
+  destruct o as [|s pre kms kbad|seq|seq repl| |k| |].
+  - inversion H; subst. destruct HD as (l0 & Hg0 & Hs0). destruct (roundtrip_list _ _ Hg0 Hs0) as [H1 H2].
+    apply Exact_WInv; assumption.
   - simpl in H.
-    assert (Hadd : forall j sc lg, jwf j ->
-              add_job cur (mkm (mem m) (disk m) sc lg false) j kms kbad = (m', out) -> Forall good (mem m') /\ Exact m').
-    { intros j sc lg Hw Ha. destruct (add_job_cases _ _ _ _ _ _ Hw Ha) as [[-> _]|(j' & Hj' & _ & Hm & Hcase)].
-      - split; assumption.
-      - assert (Hg' : Forall good (mem m')).
-        { rewrite Hm. simpl. rewrite Forall_app. split; [exact Hg|constructor; [exact Hj'|constructor]]. }
-        destruct Hcase as [(Hs & _ & _)|(Hs & _ & _)]; [split; assumption|].
-        destruct (save_good _ Hg') as [d Hd]. rewrite Hd in Hs. discriminate Hs. }
+    assert (Hadd : forall j sc lg, jwf j -> add_job cur (mkm (mem m) (disk m) sc lg false) j kms kbad = (m', out) -> WInv m').
+    { intros j sc lg Hw Ha. destruct (add_job_any _ _ _ _ _ _ _ _ Hg Hw Ha) as [(E1 & E2 & _)|(A & B & _)].
+      - unfold WInv, skeleton. rewrite E1, E2. exact HW.
+      - apply Exact_WInv; assumption. }
     destruct pre.
     + destruct (pre_exec (job_of_spec s) (scr m) (rlog m)) as [[j sc] lg] eqn:Ep.
       eapply Hadd; [|exact H]. eapply pre_exec_keeps; [exact Ep|reflexivity].
     + eapply Hadd; [|exact H]. intros _; discriminate.
-  - eapply (launch_exact _ _ _ (mkm (mem m) (disk m) (scr m) (rlog m) false)); [| |exact H]; assumption.
-  - eapply (launch_exact _ _ _ (mkm (mem m) (disk m) (scr m) (rlog m) false)); [| |exact H]; assumption.
-  - destruct (update_statuses_inv (mkm (mem m) (disk m) (scr m) (rlog m) false) _ _ Hg HS H) as (A & B & _). split; assumption.
-  - cbn [mem] in H.
-    destruct (nth_error (mem m) k) as [j|] eqn:En; [|inversion H; subst; split; assumption].
-    destruct (sent j) eqn:Es; [|inversion H; subst; split; assumption].
-    rewrite (readd_refused (mkm (mem m) (disk m) (scr m) (rlog m) false) k j En Es) in H.
-    inversion H; subst. split; assumption.
+  - eapply launch_weak; [exact HW1|exact H].
+  - eapply launch_weak; [exact HW1|exact H].
+  - apply (update_statuses_weak _ _ _ HW1 H).
+  - cbn [mem m1] in H.
+    destruct (nth_error (mem m) k) as [j|] eqn:En; [|inversion H; subst; exact HW1].
+    destruct (sent j) eqn:Es; [|inversion H; subst; exact HW1].
+    rewrite (readd_refused m1 k j En Es) in H. inversion H; subst. exact HW1.
+  - apply (get_results_inv _ _ _ HW1 H).
+  - apply (track_inv _ _ _ H). exact HW1.
+Qed.
+
+(* the main step lemma, for EVERY operation, EVERY job and EVERY server script: from an exact file, the operation —
+   whether it returns or raises — leaves the file the exact image of memory *)
+Theorem step_exact m o m' out :
+  Forall good (mem m) -> Exact m -> step cur m o = (m', out) -> Forall good (mem m') /\ Exact m'.
+Proof.
+  intros Hg HS H. pose proof (Exact_WInv _ Hg HS) as HW.
+  destruct (step_weak _ _ _ _ HW H) as (Hg' & _). split; [exact Hg'|].
+  unfold step in H. set (m1 := mkm (mem m) (disk m) (scr m) (rlog m) false) in *.
+  assert (HS1 : Exact m1) by exact HS.
+  destruct o as [|s pre kms kbad|seq|seq repl| |k| |].
+  - inversion H; subst. destruct (roundtrip_list _ _ Hg HS) as [H1 H2]. exact H1.
+  - simpl in H.
+    assert (Hadd : forall j sc lg, jwf j -> add_job cur (mkm (mem m) (disk m) sc lg false) j kms kbad = (m', out) -> Exact m').
+    { intros j sc lg Hw Ha. destruct (add_job_any _ _ _ _ _ _ _ _ Hg Hw Ha) as [(E1 & E2 & _)|(A & B & _)]; [|exact B].
+      unfold Exact. rewrite E1, E2. exact HS. }
+    destruct pre.
+    + destruct (pre_exec (job_of_spec s) (scr m) (rlog m)) as [[j sc] lg] eqn:Ep.
+      eapply Hadd; [|exact H]. eapply pre_exec_keeps; [exact Ep|reflexivity].
+    + eapply Hadd; [|exact H]. intros _; discriminate.
+  - destruct (launch_exact _ _ _ m1 _ _ Hg HS1 H) as [(_ & B & _)|(_ & B & _)]; exact B.
+  - destruct (launch_exact _ _ _ m1 _ _ Hg HS1 H) as [(_ & B & _)|(_ & B & _)]; exact B.
+  - destruct (update_statuses_inv m1 _ _ Hg HS1 H) as (_ & B & _). exact B.
+  - cbn [mem m1] in H.
+    destruct (nth_error (mem m) k) as [j|] eqn:En; [|inversion H; subst; exact HS1].
+    destruct (sent j) eqn:Es; [|inversion H; subst; exact HS1].
+    rewrite (readd_refused m1 k j En Es) in H. inversion H; subst. exact HS1.
+  - apply (get_results_inv m1 _ _ HW H). exact HS1.
+  - apply (track_inv _ _ _ H); assumption.
 Qed.
 
 (* ------------------------------------------------------------------ histories *)
 Lemma init_good sc : Forall good (mem (init sc)) /\ Exact (init sc).
 Proof. split; [constructor|reflexivity]. Qed.
 
-Lemma run_exact : forall ops m, Forall good (mem m) -> Exact m -> Forall good (mem (run cur m ops)) /\ Exact (run cur m ops).
+Lemma run_weak : forall ops m, WInv m -> WInv (run cur m ops).
 Proof.
-  induction ops as [|o r IH]; intros m Hg HS; simpl; [split; assumption|].
-  destruct (step cur m o) as [m' out] eqn:E. simpl.
-  destruct (step_exact m o m' out Hg HS E) as [A B]. apply IH; assumption.
+  induction ops as [|o r IH]; intros m HW; simpl; [exact HW|].
+  destruct (step cur m o) as [m' out] eqn:E. simpl. apply IH. eapply step_weak; eassumption.
 Qed.
 
-(* T-core 1, in FULL: after every operation of every history (every prefix ops1 of it), for every server script and
-   whether the operations return or raise, the file is exactly the image of memory and re-opening the group by name
-   yields the same observable job list (identifiers, status of sent jobs, metadata, request body unless successful) *)
+Lemma run_exact : forall ops m, Forall good (mem m) -> Exact m ->
+  Forall good (mem (run cur m ops)) /\ Exact (run cur m ops).
+Proof.
+  induction ops as [|o r IH]; intros m Hg HS; simpl; [split; assumption|].
+  destruct (step cur m o) as [m' out] eqn:E. simpl in *.
+  destruct (step_exact m o m' out Hg HS E) as [A B]. apply IH; auto.
+Qed.
+
+(* T-core 1, in FULL: after every operation of every history (every public entry point of JobGroup, get_results and
+   track_progress included), for every server script and whether the operations return or raise, the file is exactly
+   the image of memory and re-opening the group by name yields the same observable job list (identifiers, status of
+   sent jobs, metadata, request body unless successful) *)
 Theorem disk_matches_memory : forall sc ops,
   Exact (run cur (init sc) ops) /\ reload_equiv (run cur (init sc) ops).
 Proof.
@@ -567,10 +792,16 @@ Proof.
   split; [exact B|apply Exact_reload_equiv; assumption].
 Qed.
 
-(* T-core 2: identifiers (and platform metadata) on disk are those of memory after every operation of every history,
-   returning or raising: a job accepted before a refusal keeps its identifier on disk *)
-Theorem accepted_ids_survive : forall sc ops, skeleton (run cur (init sc) ops).
-Proof. intros sc ops. apply Exact_skeleton. apply disk_matches_memory. Qed.
+(* T-core 2: identifiers (and platform metadata) on disk are those of memory after every operation of EVERY history,
+   returning or raising: a job accepted before a refusal keeps its identifier on disk; and a re-open always restores
+   an exact state *)
+Theorem accepted_ids_survive : forall sc ops,
+  skeleton (run cur (init sc) ops) /\ Exact (fst (step cur (run cur (init sc) ops) OReopen)).
+Proof.
+  intros sc ops. destruct (init_good sc) as [Hg HS].
+  destruct (run_weak ops (init sc) (Exact_WInv _ Hg HS)) as (A & B & (l0 & C1 & C2)).
+  split; [exact B|]. unfold step, Exact; simpl. destruct (roundtrip_list _ _ C1 C2) as [H _]. exact H.
+Qed.
 
 (* T-core 3: what would be sent for a not-yet-successful job is the same from memory and from the re-opened group *)
 Lemma reload_body j d : good j -> to_disk j = Some d -> success (jst j) = false -> eff_body (from_disk cur d) = eff_body j.
@@ -865,18 +1096,79 @@ Proof.
   destruct (save (mem m ++ [j'])); intros H; inversion H; subst; simpl; norm; rewrite Hj; simpl; lia.
 Qed.
 
+Lemma results_loop_occ i : forall post pre sc lg dirty l' sc' lg' dy o,
+  results_loop pre post sc lg dirty = (l', sc', lg', dy, o) -> (occ i (scids sc') <= occ i (scids sc))%nat.
+Proof.
+  induction post as [|j post IH]; intros pre sc lg dirty l' sc' lg' dy o H; simpl in H.
+  - inversion H; subst. lia.
+  - destruct (maybe_completed (jst j)); [|eapply IH; exact H].
+    assert (Htail : forall j1 sc1 lg1 d1,
+              (if maybe_completed (jst j1)
+               then match jid j1 with
+                    | None => (pre ++ j1 :: post, sc1, lg1 ++ [RResult None], d1, Raised E_HTTP)
+                    | Some i0 => let (a, sc2) := pop sc1 in
+                                match a with
+                                | AOk _ _ => results_loop (pre ++ [j1]) post sc2 (lg1 ++ [RResult (Some i0)]) d1
+                                | _ => (pre ++ j1 :: post, sc2, lg1 ++ [RResult (Some i0)], d1, Raised E_HTTP)
+                                end
+                    end
+               else results_loop (pre ++ [j1]) post sc1 lg1 d1) = (l', sc', lg', dy, o) ->
+              (occ i (scids sc') <= occ i (scids sc1))%nat).
+    { intros j1 sc1 lg1 d1 Ht. destruct (maybe_completed (jst j1)); [|eapply IH; exact Ht].
+      destruct (jid j1); [|inversion Ht; subst; lia].
+      destruct (pop sc1) as [a sc2] eqn:Ep. pose proof (pop_occ _ _ _ i Ep) as Ho.
+      destruct a; [specialize (IH _ _ _ _ _ _ _ _ _ Ht); lia| |]; inversion Ht; subst; lia. }
+    destruct (polls j).
+    + destruct (poll j sc) as [r sc1] eqn:Epoll. pose proof (poll_occ _ _ _ _ i Epoll).
+      destruct r; [specialize (Htail _ _ _ _ H); lia|inversion H; subst; assumption].
+    + apply (Htail _ _ _ _ H).
+Qed.
+
+Lemma write_if_changed_keeps r m' o' : write_if_changed r = (m', o') -> mem m' = mem (fst r) /\ scr m' = scr (fst r).
+Proof.
+  unfold write_if_changed. destruct r as [m o]. destruct (save (mem m)) as [d|]; [destruct (djobs_eq_dec d (disk m))|];
+    intros H; inversion H; subst; split; reflexivity.
+Qed.
+
+Lemma get_results_pot m m' o i : get_results cur m = (m', o) -> (pot i (mem m') (scr m') <= pot i (mem m) (scr m))%nat.
+Proof.
+  unfold get_results. destruct (update_statuses m) as [m1 o1] eqn:Eu. pose proof (update_statuses_pot _ _ _ i Eu) as H1.
+  destruct o1; [|intros H; inversion H; subst; exact H1].
+  destruct (results_loop [] (mem m1) (scr m1) (rlog m1) false) as [[[[l sc] lg] dy] o2] eqn:El.
+  cbn [results_write cur]. intros H. destruct (write_if_changed_keeps _ _ _ H) as [Em Es]. simpl in Em, Es. rewrite Em, Es.
+  destruct (results_loop_spec _ _ _ _ _ _ _ _ _ _ El) as (p' & -> & HF & _).
+  destruct (Forall2_refreshed_facts _ _ HF) as [_ Hsk]. pose proof (results_loop_occ i _ _ _ _ _ _ _ _ _ _ El) as H2.
+  assert (E : map jid p' = map jid (mem m1)).
+  { assert (E0 : map fst (map (fun j => (jid j, jmeta j)) p') = map fst (map (fun j => (jid j, jmeta j)) (mem m1))) by (rewrite Hsk; reflexivity).
+    rewrite !map_map in E0. exact E0. }
+  unfold pot in *. simpl. rewrite (sids_jid _ _ E). lia.
+Qed.
+
+Lemma track_loop_pot i : forall fuel m m' o, track_loop fuel m = (m', o) -> (pot i (mem m') (scr m') <= pot i (mem m) (scr m))%nat.
+Proof.
+  induction fuel as [|f IH]; intros m m' o H; simpl in H; [inversion H; subst; lia|].
+  destruct (update_statuses m) as [m1 o1] eqn:Eu. pose proof (update_statuses_pot _ _ _ i Eu) as H1.
+  destruct o1; [destruct (counts_running (mem m1))|]; try (inversion H; subst; exact H1).
+  specialize (IH _ _ _ H). lia.
+Qed.
+
+Lemma track_pot m m' o i : track m = (m', o) -> (pot i (mem m') (scr m') <= pot i (mem m) (scr m))%nat.
+Proof.
+  unfold track. destruct (never_sent_waiting (mem m)); [intros H; inversion H; subst; lia|].
+  destruct (update_statuses m) as [m0 o0] eqn:Eu. pose proof (update_statuses_pot _ _ _ i Eu) as H1.
+  destruct o0; [|intros H; inversion H; subst; exact H1]. intros H. pose proof (track_loop_pot i _ _ _ _ H). lia.
+Qed.
+
 Lemma finish_keeps c r m' o' : finish c r = (m', o') -> mem m' = mem (fst r) /\ scr m' = scr (fst r).
 Proof.
-  unfold finish. destruct (write_on_exit c); [|intros ->; split; reflexivity].
-  destruct r as [m o]. destruct (save (mem m)) as [d|]; [destruct (djobs_eq_dec d (disk m))|];
-    intros H; inversion H; subst; split; reflexivity.
+  unfold finish. destruct (write_on_exit c); [apply write_if_changed_keeps|intros ->; split; reflexivity].
 Qed.
 
 (* every operation: the occurrences of an identifier in the group plus the times the server may still issue it never increase *)
 Theorem step_pot m o m' out i : skeleton m -> step cur m o = (m', out) ->
   (pot i (mem m') (scr m') <= pot i (mem m) (scr m))%nat.
 Proof.
-  intros Hk H. unfold step in H. destruct o as [|s pre kms kbad|seq|seq repl| |k].
+  intros Hk H. unfold step in H. destruct o as [|s pre kms kbad|seq|seq repl| |k| |].
   - inversion H; subst; simpl. unfold pot. rewrite (sids_jid (load cur (disk m)) (mem m)); [lia|].
     unfold skeleton in Hk. unfold load. rewrite map_map.
     assert (E : map fst (map (fun d => (d_id d, d_meta d)) (disk m)) = map fst (map (fun j => (jid j, jmeta j)) (mem m)))
@@ -904,15 +1196,17 @@ Proof.
   - cbn [mem] in H. destruct (nth_error (mem m) k) as [j|] eqn:En; [|inversion H; subst; simpl; lia].
     destruct (sent j) eqn:Es; [|inversion H; subst; simpl; lia].
     rewrite (readd_refused (mkm (mem m) (disk m) (scr m) (rlog m) false) k j En Es) in H. inversion H; subst; simpl; lia.
+  - apply (get_results_pot _ _ _ i) in H. exact H.
+  - apply (track_pot _ _ _ i) in H. exact H.
 Qed.
 
-Lemma run_pot : forall ops m i, Forall good (mem m) -> Exact m ->
+Lemma run_pot : forall ops m i, WInv m ->
   (pot i (mem (run cur m ops)) (scr (run cur m ops)) <= pot i (mem m) (scr m))%nat.
 Proof.
-  induction ops as [|o r IH]; intros m i Hg HS; simpl; [lia|].
+  induction ops as [|o r IH]; intros m i HW; simpl; [lia|].
   destruct (step cur m o) as [m' out] eqn:E. simpl.
-  destruct (step_exact m o m' out Hg HS E) as (A & B).
-  pose proof (step_pot m o m' out i (Exact_skeleton _ HS) E). specialize (IH m' i A B). lia.
+  pose proof (step_weak m o m' out HW E) as HW'. destruct HW as (_ & Hk & _).
+  pose proof (step_pot m o m' out i Hk E). specialize (IH m' i HW'). lia.
 Qed.
 
 (* T-core 5c: if the server never issues the same identifier twice, then after every operation of every history
@@ -925,10 +1219,10 @@ Theorem no_identifier_twice : forall sc ops, NoDup (scids sc) ->
 Proof.
   intros sc ops Hnd m.
   destruct (init_good sc) as [Hg HS].
-  pose proof (accepted_ids_survive sc ops) as Hk. fold m in Hk.
+  pose proof (proj1 (accepted_ids_survive sc ops)) as Hk. fold m in Hk.
   assert (Hmem : NoDup (sids (mem m))).
   { apply (NoDup_count_occ Z.eq_dec). intros i.
-    pose proof (run_pot ops (init sc) i Hg HS) as Hp. fold m in Hp.
+    pose proof (run_pot ops (init sc) i (Exact_WInv _ Hg HS)) as Hp. fold m in Hp.
     unfold pot in Hp. simpl in Hp. pose proof (proj1 (NoDup_count_occ Z.eq_dec (scids sc)) Hnd i) as Hs.
     unfold occ in *. lia. }
   split; [exact Hmem|].
@@ -1022,3 +1316,127 @@ Example classic_run_same_writes :
   let s := [AOk 10 WAITING; AOk 11 WAITING; AOk 0 SUCCESS; AOk 0 SUCCESS] in
   writes (run cur (init s) h) = writes (run before_9afb11d4 (init s) h) /\ writes (run cur (init s) h) = 6%nat.
 Proof. vm_compute. split; reflexivity. Qed.
+
+(* HISTORICAL, about the code before 65ec16e2 (configuration `before_65ec16e2`): after its refresh pass,
+   `job.get_results()` read `self.status` again for a job whose status is UNKNOWN (maybe_completed but not completed, so
+   still refreshed from the server); the new status was not written *)
+Definition reload_equiv_r (m : mach) : Prop := map obs (load before_65ec16e2 (disk m)) = map obs (mem m).
+Theorem disk_matches_memory_refuted_get_results_old_code :
+  exists ops sc, snd (step before_65ec16e2 (run before_65ec16e2 (init sc) (removelast ops)) (last ops OReopen)) = Returned /\
+                 ~ reload_equiv_r (run before_65ec16e2 (init sc) ops).
+Proof.
+  exists [OAdd (sp 1) true None false; OGetResults], [AOk 10 WAITING; AOk 11 UNKNOWN; AOk 12 SUCCESS; AOk 0 WAITING].
+  split; [vm_compute; reflexivity|unfold reload_equiv_r; vm_compute; intros H; discriminate H].
+Qed.
+
+(* the same history on the current code: same outcome, exact file, exactly one more write *)
+Example repaired_get_results_witness :
+  let h := [OAdd (sp 1) true None false; OGetResults] in
+  let s := [AOk 10 WAITING; AOk 11 UNKNOWN; AOk 12 SUCCESS; AOk 0 WAITING] in
+  snd (step cur (run cur (init s) (removelast h)) (last h OReopen)) = Returned /\
+  writes (run cur (init s) h) = Datatypes.S (writes (run before_65ec16e2 (init s) h)).
+Proof. vm_compute. split; reflexivity. Qed.
+
+(* ------------------------------------------------------------------ several groups: the store indexed by name *)
+Lemma sget_sset_eq {A} n (v : A) s : sget n (sset n v s) = Some v.
+Proof.
+  induction s as [|[k w] r IH]; simpl; [rewrite Z.eqb_refl; reflexivity|].
+  destruct (Z.eqb k n) eqn:E; simpl; [rewrite Z.eqb_refl; reflexivity|rewrite E; exact IH].
+Qed.
+Lemma sget_sset_neq {A} n n' (v : A) s : n <> n' -> sget n' (sset n v s) = sget n' s.
+Proof.
+  intros Hne. induction s as [|[k w] r IH]; simpl.
+  - destruct (Z.eqb n n') eqn:E; [apply Z.eqb_eq in E; contradiction|reflexivity].
+  - destruct (Z.eqb k n) eqn:E; simpl.
+    + apply Z.eqb_eq in E. subst k. destruct (Z.eqb n n') eqn:E2; [apply Z.eqb_eq in E2; contradiction|reflexivity].
+    + destruct (Z.eqb k n'); [reflexivity|exact IH].
+Qed.
+Lemma sget_sdel_eq {A} n (s : list (Z * A)) : sget n (sdel n s) = None.
+Proof.
+  induction s as [|[k w] r IH]; simpl; [reflexivity|]. destruct (Z.eqb k n) eqn:E; simpl; [exact IH|rewrite E; exact IH].
+Qed.
+Lemma sget_sdel_neq {A} n n' (s : list (Z * A)) : n <> n' -> sget n' (sdel n s) = sget n' s.
+Proof.
+  intros Hne. induction s as [|[k w] r IH]; simpl; [reflexivity|]. destruct (Z.eqb k n) eqn:E; simpl.
+  - apply Z.eqb_eq in E. subst k. destruct (Z.eqb n n') eqn:E2; [apply Z.eqb_eq in E2; contradiction|exact IH].
+  - destruct (Z.eqb k n'); [reflexivity|exact IH].
+Qed.
+
+(* every live group object is exact with respect to the file of ITS name, and every file has its live object *)
+Definition WExact (w : world) : Prop :=
+  (forall n l, sget n (handles w) = Some l -> Forall good l /\ exists d, sget n (files w) = Some d /\ save l = Some d) /\
+  (forall n d, sget n (files w) = Some d -> exists l, sget n (handles w) = Some l).
+
+Theorem mstep_exact w o w' out : WExact w -> mstep cur w o = (w', out) -> WExact w'.
+Proof.
+  intros [HE HF] H. destruct o as [n|n o1|n| |all]; simpl in H.
+  - destruct (sget n (files w)) as [d|] eqn:Ef; inversion H; subst; clear H; split; simpl.
+    + intros n0 l Hl. destruct (Z.eq_dec n n0) as [->|Hne].
+      * rewrite sget_sset_eq in Hl. inversion Hl; subst. destruct (HF _ _ Ef) as [l0 Hl0].
+        destruct (HE _ _ Hl0) as (Hg & d0 & Hd0 & Hs). rewrite Ef in Hd0. inversion Hd0; subst.
+        destruct (roundtrip_list _ _ Hg Hs) as [A B]. split; [exact B|]. exists d0. split; assumption.
+      * rewrite sget_sset_neq in Hl by assumption. apply HE; assumption.
+    + intros n0 d0 Hd0. destruct (Z.eq_dec n n0) as [->|Hne].
+      * eexists. apply sget_sset_eq.
+      * rewrite sget_sset_neq by assumption. eapply HF; eassumption.
+    + intros n0 l Hl. destruct (Z.eq_dec n n0) as [->|Hne].
+      * rewrite sget_sset_eq in Hl. inversion Hl; subst. split; [constructor|]. exists []. split; [apply sget_sset_eq|reflexivity].
+      * rewrite sget_sset_neq in Hl by assumption. rewrite sget_sset_neq by assumption. apply HE; assumption.
+    + intros n0 d0 Hd0. destruct (Z.eq_dec n n0) as [->|Hne].
+      * eexists. apply sget_sset_eq.
+      * rewrite sget_sset_neq in Hd0 by assumption. rewrite sget_sset_neq by assumption. eapply HF; eassumption.
+  - destruct (sget n (handles w)) as [l|] eqn:El; [|inversion H; subst; split; assumption].
+    destruct (sget n (files w)) as [d|] eqn:Ed; [|inversion H; subst; split; assumption].
+    destruct (step cur (mkm l d (wscr w) (wlog w) false) o1) as [m' out'] eqn:Es. inversion H; subst; clear H.
+    destruct (HE _ _ El) as (Hg & d0 & Hd0 & Hs). rewrite Ed in Hd0. inversion Hd0; subst.
+    destruct (step_exact (mkm l d0 (wscr w) (wlog w) false) o1 m' out Hg Hs Es) as [Hg' HX].
+    split; simpl.
+    + intros n0 l0 Hl0. destruct (Z.eq_dec n n0) as [->|Hne].
+      * rewrite sget_sset_eq in Hl0. inversion Hl0; subst. split; [exact Hg'|]. exists (disk m'). split; [apply sget_sset_eq|exact HX].
+      * rewrite sget_sset_neq in Hl0 by assumption. rewrite sget_sset_neq by assumption. apply HE; assumption.
+    + intros n0 d1 Hd1. destruct (Z.eq_dec n n0) as [->|Hne].
+      * eexists. apply sget_sset_eq.
+      * rewrite sget_sset_neq in Hd1 by assumption. rewrite sget_sset_neq by assumption. eapply HF; eassumption.
+  - inversion H; subst; clear H. split; simpl.
+    + intros n0 l Hl. destruct (Z.eq_dec n n0) as [->|Hne]; [rewrite sget_sdel_eq in Hl; discriminate|].
+      rewrite sget_sdel_neq in Hl by assumption. rewrite sget_sdel_neq by assumption. apply HE; assumption.
+    + intros n0 d Hd. destruct (Z.eq_dec n n0) as [->|Hne]; [rewrite sget_sdel_eq in Hd; discriminate|].
+      rewrite sget_sdel_neq in Hd by assumption. rewrite sget_sdel_neq by assumption. eapply HF; eassumption.
+  - inversion H; subst. split; simpl; intros; discriminate.
+  - destruct all; inversion H; subst; [split; simpl; intros; discriminate|split; assumption].
+Qed.
+
+(* the name an operation is about *)
+Definition mop_name (o : mop) : option Z :=
+  match o with MOpen n | MOn n _ | MDelete n => Some n | _ => None end.
+
+(* frame: an operation about the name n neither reads nor writes anything stored under another name *)
+Theorem mstep_frame w o w' out n n' : mop_name o = Some n -> n <> n' -> mstep cur w o = (w', out) ->
+  sget n' (files w') = sget n' (files w) /\ sget n' (handles w') = sget n' (handles w).
+Proof.
+  intros Hn Hne H. destruct o as [n0|n0 o1|n0| |all]; simpl in Hn; inversion Hn; subst; simpl in H.
+  - destruct (sget n (files w)); inversion H; subst; simpl; rewrite ?sget_sset_neq by assumption; split; reflexivity.
+  - destruct (sget n (handles w)); [|inversion H; subst; split; reflexivity].
+    destruct (sget n (files w)); [|inversion H; subst; split; reflexivity].
+    destruct (step cur _ o1) as [m' out']. inversion H; subst; simpl. rewrite !sget_sset_neq by assumption. split; reflexivity.
+  - inversion H; subst; simpl. rewrite !sget_sdel_neq by assumption. split; reflexivity.
+Qed.
+
+(* re-opening by the same name returns what was written under that name *)
+Theorem reopen_by_name w n l w' out : WExact w -> sget n (handles w) = Some l -> mstep cur w (MOpen n) = (w', out) ->
+  files w' = files w /\ exists l', sget n (handles w') = Some l' /\ map obs l' = map obs l.
+Proof.
+  intros [HE HF] Hl H. destruct (HE _ _ Hl) as (Hg & d & Hd & Hs). simpl in H. rewrite Hd in H. inversion H; subst; simpl.
+  split; [reflexivity|]. exists (load cur d). split; [apply sget_sset_eq|].
+  destruct (roundtrip_list _ _ Hg Hs) as [A _]. apply save_some in A. apply save_some in Hs. unfold obs. rewrite A, Hs. reflexivity.
+Qed.
+
+(* T-core 1 for several groups: after every operation of every world history (opens, operations on any live group,
+   deletions), every live group object is exact with respect to the file of its own name *)
+Theorem world_disk_matches_memory : forall ops sc, WExact (mrun cur (winit sc) ops).
+Proof.
+  intros ops sc. assert (H0 : WExact (winit sc)) by (split; simpl; intros; discriminate).
+  revert H0. generalize (winit sc). induction ops as [|o r IH]; intros w HW; simpl; [exact HW|].
+  destruct (mstep cur w o) as [w' out] eqn:E. simpl in *.
+  apply IH. eapply mstep_exact; eassumption.
+Qed.
